@@ -48,9 +48,10 @@ func c14HasContinue(b *ast.BlockStmt) bool {
 }
 
 // c14NilGuard: in concatMaps
-//   (1) the gather loop assigns `v := m.MapIndex(key)` and, before `reflect.Append(.., v)`,
-//       has `if … v.IsNil() … { … continue }`
-//   (2) the combine loop has `if len(anyVals) == 0 { … continue }` before `toSliceValue(anyVals)`.
+//
+//	(1) the gather loop assigns `v := m.MapIndex(key)` and, before `reflect.Append(.., v)`,
+//	    has `if … v.IsNil() … { … continue }`
+//	(2) the combine loop has `if len(anyVals) == 0 { … continue }` before `toSliceValue(anyVals)`.
 func c14NilGuard(fd *ast.FuncDecl) (bool, string) {
 	g1, g2 := false, false
 	ast.Inspect(fd.Body, func(n ast.Node) bool {
@@ -94,6 +95,158 @@ func c14NilGuard(fd *ast.FuncDecl) (bool, string) {
 	note := "gather-loop nil check: " + map[bool]string{true: "present", false: "absent"}[g1] +
 		"; empty-values check before toSliceValue: " + map[bool]string{true: "present", false: "absent"}[g2]
 	return g1 && g2, note
+}
+
+// c14Conjuncts flattens a chain of && into its operands, left to right.
+func c14Conjuncts(e ast.Expr) []ast.Expr {
+	if p, ok := e.(*ast.ParenExpr); ok {
+		return c14Conjuncts(p.X)
+	}
+	if b, ok := e.(*ast.BinaryExpr); ok && b.Op.String() == "&&" {
+		return append(c14Conjuncts(b.X), c14Conjuncts(b.Y)...)
+	}
+	return []ast.Expr{e}
+}
+
+// c14GuardKindFirst: the gather-loop guard of concatMaps (the `if … val.IsNil() … { … continue }`
+// that follows `val := m.MapIndex(key)`) is a conjunction in which `val.Kind()==reflect.Interface`
+// stands before `val.IsNil()`, i.e. IsNil is only evaluated on interface values.
+// found=false: no such guard located.
+func c14GuardKindFirst(fd *ast.FuncDecl) (kindFirst, found bool, note string) {
+	ast.Inspect(fd.Body, func(n ast.Node) bool {
+		blk, ok := n.(*ast.BlockStmt)
+		if !ok || found {
+			return !found
+		}
+		valName := ""
+		for _, s := range blk.List {
+			switch st := s.(type) {
+			case *ast.AssignStmt:
+				if len(st.Lhs) >= 1 && len(st.Rhs) == 1 {
+					rhs := exprString(st.Rhs[0])
+					if id, ok := st.Lhs[0].(*ast.Ident); ok {
+						if strings.HasSuffix(rhs, ".MapIndex(key)") && strings.HasPrefix(rhs, "m.") {
+							valName = id.Name
+						}
+					}
+				}
+			case *ast.IfStmt:
+				if valName == "" || st.Init != nil || !c14HasContinue(st.Body) {
+					continue
+				}
+				cs := c14Conjuncts(st.Cond)
+				isNilAt, kindAt := -1, -1
+				for i, c := range cs {
+					x := exprString(c)
+					if x == valName+".IsNil()" && isNilAt < 0 {
+						isNilAt = i
+					}
+					if (x == valName+".Kind()==reflect.Interface" || x == "reflect.Interface=="+valName+".Kind()") && kindAt < 0 {
+						kindAt = i
+					}
+				}
+				if isNilAt < 0 {
+					continue
+				}
+				found = true
+				kindFirst = kindAt >= 0 && kindAt < isNilAt
+				note = "guard condition `" + exprString(st.Cond) + "`"
+			}
+		}
+		return true
+	})
+	if !found {
+		note = "no `if … val.IsNil() … { continue }` after `val := m.MapIndex(key)`"
+	}
+	return
+}
+
+// c14KindDispatch: the function has `if <cond> { … = concatMaps(…) } else { … = concatSliceValue(…) }`
+// and <cond> is `<x>.Kind()==reflect.Map` where <x> is `wantX` (a type expression: the element
+// type of the gathered values / the chunk type). found=false: no such if/else located.
+func c14KindDispatch(fd *ast.FuncDecl, wantX []string) (byKind, found bool, note string) {
+	ast.Inspect(fd.Body, func(n ast.Node) bool {
+		is, ok := n.(*ast.IfStmt)
+		if !ok || found {
+			return !found
+		}
+		eb, ok := is.Else.(*ast.BlockStmt)
+		if !ok || !containsCall(is.Body, "concatMaps") || !containsCall(eb, "concatSliceValue") {
+			return true
+		}
+		found = true
+		c := exprString(is.Cond)
+		note = "`if " + c + "`"
+		if is.Init != nil {
+			note = "`if <init>; " + c + "`"
+			return false // a condition computed by an init statement (type assertion, …) is not the kind test
+		}
+		for _, x := range wantX {
+			if c == x+".Kind()==reflect.Map" || c == "reflect.Map=="+x+".Kind()" {
+				byKind = true
+			}
+		}
+		return false
+	})
+	if !found {
+		note = "no `if … { concatMaps } else { concatSliceValue }`"
+	}
+	return
+}
+
+// c14NilResultGuard: ConcatItems type-asserts the concatenated value to T. guarded = the
+// asserted operand is a variable holding `cv.Interface()` and an earlier `if <var>==nil { … return … }`
+// returns before the assertion, or the assertion is in comma-ok form.
+// found=false: no `.(T)` assertion located.
+func c14NilResultGuard(fd *ast.FuncDecl) (guarded, found bool, note string) {
+	ifaceVar := map[string]bool{}   // variables assigned from cv.Interface()
+	nilChecked := map[string]bool{} // … for which an `if v == nil { return }` has been seen
+	var walk func(list []ast.Stmt)
+	walk = func(list []ast.Stmt) {
+		for _, s := range list {
+			switch st := s.(type) {
+			case *ast.AssignStmt:
+				if len(st.Lhs) == 1 && len(st.Rhs) == 1 {
+					if id, ok := st.Lhs[0].(*ast.Ident); ok && exprString(st.Rhs[0]) == "cv.Interface()" {
+						ifaceVar[id.Name] = true
+					}
+				}
+				if len(st.Lhs) == 2 && len(st.Rhs) == 1 {
+					if ta, ok := st.Rhs[0].(*ast.TypeAssertExpr); ok && ta.Type != nil && exprString(ta.Type) == "T" && !found {
+						found, guarded, note = true, true, "comma-ok assertion `"+exprString(ta)+"`"
+					}
+				}
+			case *ast.IfStmt:
+				c := exprString(st.Cond)
+				for v := range ifaceVar {
+					if (c == v+"==nil" || c == "nil=="+v) && st.Init == nil {
+						for _, b := range st.Body.List {
+							if _, ok := b.(*ast.ReturnStmt); ok {
+								nilChecked[v] = true
+							}
+						}
+					}
+				}
+			case *ast.ReturnStmt:
+				for _, r := range st.Results {
+					if ta, ok := r.(*ast.TypeAssertExpr); ok && ta.Type != nil && exprString(ta.Type) == "T" && !found {
+						found = true
+						x := exprString(ta.X)
+						guarded = nilChecked[x]
+						note = "`return " + exprString(ta) + ", …`"
+						if guarded {
+							note += " after `if " + x + "==nil { return }`"
+						}
+					}
+				}
+			}
+		}
+	}
+	walk(fd.Body.List)
+	if !found {
+		note = "no type assertion to T at the top level of the function body"
+	}
+	return
 }
 
 func factsC14(r *Repo) []Fact {
@@ -179,6 +332,74 @@ func factsC14(r *Repo) []Fact {
 		out = append(out, boolFact("nilGuard", ok, "internal/"+file+": concatMaps ("+note+")"))
 	} else {
 		out = append(out, unknownFact("nilGuard", "Bool", "false", "internal/concat.go", "func concatMaps not found"))
+	}
+
+	// ---- form of the nil guard: IsNil only on interface values ----
+	if fd, file := ip.Func("", "concatMaps"); fd != nil && fd.Body != nil {
+		kf, found, note := c14GuardKindFirst(fd)
+		if found {
+			out = append(out, boolFact("guardKindFirst", kf, "internal/"+file+": concatMaps gather loop: `val.Kind()==reflect.Interface` is tested before `val.IsNil()` ("+note+")"))
+		} else {
+			out = append(out, unknownFact("guardKindFirst", "Bool", "false", "internal/"+file+": concatMaps", note))
+		}
+	} else {
+		out = append(out, unknownFact("guardKindFirst", "Bool", "false", "internal/concat.go", "func concatMaps not found"))
+	}
+
+	// ---- recursion into maps is decided by the kind of the type (every map type) ----
+	{
+		fm, fileM := ip.Func("", "concatMaps")
+		fi, _ := ip.Func("", "ConcatItems")
+		if fm != nil && fm.Body != nil && fi != nil && fi.Body != nil {
+			// the slice variable produced by toSliceValue in concatMaps
+			sliceVar := ""
+			ast.Inspect(fm.Body, func(n ast.Node) bool {
+				if as, ok := n.(*ast.AssignStmt); ok && len(as.Rhs) == 1 && len(as.Lhs) >= 1 {
+					if strings.HasPrefix(exprString(as.Rhs[0]), "toSliceValue(") {
+						if id, ok := as.Lhs[0].(*ast.Ident); ok && sliceVar == "" {
+							sliceVar = id.Name
+						}
+					}
+				}
+				return true
+			})
+			// the type variable of ConcatItems: typ := generic.TypeOf[T]()
+			typVar := ""
+			ast.Inspect(fi.Body, func(n ast.Node) bool {
+				if as, ok := n.(*ast.AssignStmt); ok && len(as.Rhs) == 1 && len(as.Lhs) == 1 {
+					if call, ok := as.Rhs[0].(*ast.CallExpr); ok {
+						if ix, ok := call.Fun.(*ast.IndexExpr); ok && exprString(ix.X) == "generic.TypeOf" && exprString(ix.Index) == "T" {
+							if id, ok := as.Lhs[0].(*ast.Ident); ok && typVar == "" {
+								typVar = id.Name
+							}
+						}
+					}
+				}
+				return true
+			})
+			k1, f1, n1 := c14KindDispatch(fm, []string{sliceVar + ".Type().Elem()"})
+			k2, f2, n2 := c14KindDispatch(fi, []string{typVar, "reflect.TypeOf(items).Elem()"})
+			where := "internal/" + fileM + ": concatMaps dispatches on the gathered values' type kind (" + n1 + "), ConcatItems on the chunk type kind (" + n2 + ")"
+			if f1 && f2 && sliceVar != "" && typVar != "" {
+				out = append(out, boolFact("recurseByKind", k1 && k2, where))
+			} else {
+				out = append(out, unknownFact("recurseByKind", "Bool", "false", where, "dispatch between concatMaps and concatSliceValue not located"))
+			}
+		} else {
+			out = append(out, unknownFact("recurseByKind", "Bool", "false", "internal/concat.go", "func concatMaps / ConcatItems not found"))
+		}
+	}
+
+	// ---- nil interface result of ConcatItems ----
+	if fd, file := ip.Func("", "ConcatItems"); fd != nil && fd.Body != nil {
+		g, found, note := c14NilResultGuard(fd)
+		if found {
+			out = append(out, boolFact("nilResultGuard", g, "internal/"+file+": ConcatItems returns T's zero value for a nil interface result instead of asserting it to T ("+note+")"))
+		} else {
+			out = append(out, unknownFact("nilResultGuard", "Bool", "false", "internal/"+file+": ConcatItems", note))
+		}
+	} else {
+		out = append(out, unknownFact("nilResultGuard", "Bool", "false", "internal/concat.go", "func ConcatItems not found"))
 	}
 
 	// ---- conflict checks of ConcatMessages ----
